@@ -404,6 +404,25 @@ class CycleDropScn:
                 h.c = c
                 h.me = h
                 del c, h
+                if P.get("gc_anywhere"):
+                    # the collector runs at ANY statement of the channel / gateway code this thread
+                    # executes next (one environment deviation), or at the latest afterwards
+                    from engine import instrument
+
+                    w.gc_mask = instrument.select(lambda m, q, l: (m == "gateway_base" and (q.startswith("Channel.") or q.startswith("ChannelFactory.") or q.startswith("BaseGateway._send") or q.startswith("BaseGateway.newchannel") or q.startswith("Message.to_io"))) or (m == "gateway" and q.startswith("Gateway.remote_exec")))
+                    w.gc_proc = S.proc
+                    w.exploring = True
+                    try:
+                        d = gw.remote_exec("channel.send(channel.receive() + 1)")
+                        d.send(1)
+                        w.observe("second", d.receive(timeout=10))
+                        e = gw.newchannel()
+                        e.close()
+                        d.waitclose(10)
+                    except BaseException as ex:  # noqa: BLE001
+                        w.observe("second-exc", type(ex).__name__, str(ex)[:100])
+                    w.exploring = False
+                    w.gc_mask = None
                 gc.collect()
             else:
                 ctl = gw.remote_exec(
@@ -438,6 +457,8 @@ class CycleDropScn:
         out = tuple(e[0] for e in obs)
         if ("main-done",) not in obs:
             return ("c18:hang", f"P={P} obs={obs} blocked={w.blocked_at_end}"), out
+        if P.get("gc_anywhere") and ("second", 2) not in obs:
+            return ("c18:gc-disturbed-conversation", f"P={P}: a collection in the middle of another conversation disturbed it: {obs}"), out
         if P["who"] == "init":
             if ("ctl", ("eof-seen", 1)) not in obs:
                 return ("c18:dropped-channel-not-forgotten", f"P={P}: the channel handle went away through the cyclic garbage collector but the peer never saw the end of the conversation: {obs}"), out
@@ -518,6 +539,11 @@ def run(tier: str, only=None) -> int:
         if only and only not in name:
             continue
         harness.run_exploration(rep, PID, name, CycleDropScn, {"who": who}, {"ps": 0, "free": 0}, max_execs=10)
+    for cb in (False, True):
+        name = f"cycledrop/gc-anywhere{':cb' if cb else ''}"
+        if only and only not in name:
+            continue
+        harness.run_exploration(rep, PID, name, CycleDropScn, {"who": "init", "gc_anywhere": True, "callback": cb}, {"ps": 0, "env": 1, "free": 0} if tier == "quick" else {"ps": 1, "env": 1, "free": 0}, max_execs=cap)
     for end in ("remote-close", "remote-error", "cb-raises"):
         name = f"cbcycle/{end}"
         if only and only not in name:
